@@ -20,7 +20,10 @@ macro_rules! dispatch {
 			"C10" => Some($f::<props::c10::C10>($($arg),*)),
 			"C11" => Some($f::<props::c11::C11>($($arg),*)),
 			"C12" => Some($f::<props::c12::C12>($($arg),*)),
+			"C13" => Some($f::<props::c13::C13>($($arg),*)),
+			"C14" => Some($f::<props::c14::C14>($($arg),*)),
 			"C15" => Some($f::<props::c15::C15>($($arg),*)),
+			"C16" => Some($f::<props::c16::C16>($($arg),*)),
 			"C19" => Some($f::<props::c19::C19>($($arg),*)),
 			_ => None,
 		}
